@@ -609,7 +609,11 @@ pub fn gen_srv(rng: &mut Rng, count: u64, tier: &str) -> Vec<String> {
         out.push(format!("srv o 0 {tree} q0:{w}:-;q1:{w}:UP900_5;w7300;x0;{probe}"));
         // no-overwrite mode: the duplicate is refused, the first transfer is the only owner
         out.push(format!("srv - 0 {tree} q0:{w}:-;q1:{w}:UP900_5;w7300;x0;{probe}"));
+        // ... also when the server reads from and writes to different directories
+        out.push(format!("srv d 0 {tree} q0:{w}:-;q1:{w}:UP900_5;w7300;x0;{probe}"));
         if tier == "thorough" {
+            out.push(format!("srv ds 0 {tree} q0:{w}:-;q1:{w}:UP900_5;w7300;x0;{probe}"));
+            out.push(format!("srv dk 0 {tree} q0:{w}:-;q1:{w}:UP900_5;w7300;x0;{probe}"));
             out.push(format!("srv ok 0 {tree} q0:{w}:-;q1:{w}:UP900_5;w7300;x0;{probe}"));
             out.push(format!("srv os 0 {tree} q0:{w}:-;q1:{w}:UP900_5;w7300;x0;{probe}"));
         }
